@@ -275,6 +275,86 @@ def optional_arguments_guarded(ctx, rule='C20-R10', modules=('ampycloud.plots',)
                                       f'which does not exclude {o[1]} is None: None in a concatenation / in arithmetic is a '
                                       'TypeError', instance=f'{q}: {o[1]} is not None where it is concatenated / computed with')
     ctx.ok(rule, f'{n} uses of optional arguments in concatenation / arithmetic, all under `is not None`', '')
+    # a default is substituted for an argument only when the argument IS None: a truth test also replaces an empty list
+    # (save_fmts=[] asks for no file; with `if not save_fmts` a pdf is written that nobody requested)
+    m = 0
+    for q, f in sorted(p.funcs.items()):
+        if not f.module.name.startswith(tuple(modules)) or q not in fx.summ:
+            continue
+        for e in fx.own_events(q):
+            node = e.node
+            if e.kind != 'assign' or not isinstance(node, _ast.Assign) or len(node.targets) != 1 or \
+                    not isinstance(node.targets[0], _ast.Name) or node.targets[0].id not in f.params:
+                continue
+            name = node.targets[0].id
+            d = param_default(f, name)
+            if not (isinstance(d, _ast.Constant) and d.value is None):
+                continue
+            if T.contains(e.value, lambda x: x == ('p', name)) or e.guard == T.TRUE:
+                continue            # a conversion of the given value ([fmt] for a single str), not a default
+            m += 1
+            own = guard_literals(e.guard)[-1:] if tag(e.guard) != 'and' else [
+                l for l in guard_literals(e.guard) if T.contains(l, lambda x: x == ('p', name))]
+            def truth_test(l):
+                body = l[1] if tag(l) == 'not' else l
+                return tag(body) in ('p', 'phi', 'sub', 'col', 'attr')      # the value itself used as a condition
+            ok = any(tag(l) == 'cmp' and l[1] == 'is' and T.NONE in (l[2], l[3]) for l in own) and \
+                not any(truth_test(l) for l in own)
+            ctx.check(ok, rule, q, node, e.loc(),
+                      f'{name} (default None) is replaced by {T.show(e.value, maxlen=60)} under {T.show(e.guard, maxlen=100)}: not an '
+                      f'`is None` test, so an empty / zero / False {name} given by the caller is replaced as well',
+                      instance=f'{q}: default of {name} substituted only when it is None')
+    ctx.floor(rule, 'defaults substituted for None arguments in plot code', m, 1)
+
+
+def labels_are_not_positions(ctx, rule='C20-R11'):
+    """Arrays built by the plot code (colours, markers, flags: one element per row of the chunk data, in row order) are
+    indexed by boolean masks or by positions, never by the index labels of a selection of the chunk data: those labels
+    have gaps wherever the MSA crop dropped rows, so a label can exceed the length of the array (IndexError) or pick
+    the colour of another hit."""
+    fx = effects(ctx)
+    p = ctx.project
+    n = 0
+
+    def chunk_frame(t):
+        r = T.peel(t)
+        for _ in range(40):
+            if tag(r) in ('mask', 'rows', 'col', 'upd', 'cols'):
+                r = T.peel(r[1])
+            elif tag(r) == 'mcall' and r[2] in ('sort_values', 'reset_index', 'copy', 'dropna'):
+                r = T.peel(r[1])
+            else:
+                break
+        return tag(r) == 'attr' and r[2] in ('_data', '_slices', '_groups', '_layers', 'data', 'slices', 'groups', 'layers')
+    for q, f in sorted(p.funcs.items()):
+        if not f.module.name.startswith('ampycloud.plots') or q not in fx.summ:
+            continue
+        seen = set()
+        for e in fx.own_events(q):
+            for nm, v in fx.terms_of(e):
+                if nm == 'guard' or v is None:
+                    continue
+                for x in T.walk(v):
+                    if tag(x) != 'sub':
+                        continue
+                    n += 1
+                    idx = T.peel(x[2])
+                    if tag(idx) in ('mcall',) and idx[2] in ('to_numpy', 'tolist', 'to_list'):
+                        idx = T.peel(idx[1])
+                    if tag(idx) == 'vals':
+                        idx = T.peel(idx[1])
+                    base = T.root(T.peel(x[1]))
+                    while tag(base) == 'upd':
+                        base = T.root(T.peel(base[1]))
+                    array_like = tag(base) in ('call', 'lc', 'list') and not chunk_frame(x[1])
+                    if tag(idx) == 'index' and chunk_frame(idx[1]) and array_like and T.key(x) not in seen:
+                        seen.add(T.key(x))
+                        ctx.violation(rule, q, e.node, e.loc(),
+                                      f'an array built by the plot code is indexed by index labels of the chunk data '
+                                      f'({T.show(x[2], maxlen=100)}): labels are not positions once the MSA crop has dropped rows',
+                                      instance=f'{q}: arrays indexed by masks / positions, not labels')
+    ctx.ok(rule, f'{n} subscripts in plot code: no array indexed by labels of the chunk data', '')
+    ctx.floor(rule, 'subscripts examined in plot code', n, 30)
 
 
 def chunk_read_only(ctx, rule='C20-R3'):
